@@ -22,6 +22,7 @@ import (
 	"strings"
 	"sync"
 	"sync/atomic"
+	"syscall"
 	"time"
 
 	"github.com/anishathalye/porcupine"
@@ -901,7 +902,7 @@ func scenarioDeterminism(o *common.Opts, st *stats) string {
 // ---- C08 ----------------------------------------------------------------------
 
 var seams = []string{"afterWalSave", "afterAppend", "afterSend", "afterPublish", "beforeAdvance", "beforeWalSave"}
-var snapSeams = []string{"snapBeforeSave", "snapAfterSave", "snapAfterCompact"}
+var snapSeams = []string{"snapBeforeSave", "snapFileSaved", "snapAfterSave", "snapAfterCompact"}
 
 type c08case struct {
 	regime  string // nosnap | snap
@@ -918,7 +919,16 @@ func scenarioC08(o *common.Opts, idx int, cs c08case, st *stats) string {
 	dir := filepath.Join(o.Work, fmt.Sprintf("c08-%d", idx))
 	env := []string{}
 	if cs.regime == "snap" {
-		env = append(env, fmt.Sprintf("VERIF_SNAPCOUNT=%d", cs.snapCnt), "VERIF_CATCHUP=5")
+		catchUp := 5
+		if cs.seam == "snapFileSaved" {
+			// the victim is to come back through its own files and the log: nobody may have to send it a snapshot,
+			// which would paper over whatever it did with the file nobody vouches for. (Not more than the snapshot
+			// interval: the example's compaction arithmetic assumes that, as its own constants do - with more, a node
+			// restarted from a snapshot asks its log to compact below that snapshot and panics. Harness artefact of the
+			// first version of this case, not a defect.)
+			catchUp = cs.snapCnt - 1
+		}
+		env = append(env, fmt.Sprintf("VERIF_SNAPCOUNT=%d", cs.snapCnt), fmt.Sprintf("VERIF_CATCHUP=%d", catchUp))
 	}
 	c, err := cluster.New(dir, 3, false, env)
 	if err != nil {
@@ -943,6 +953,12 @@ func scenarioC08(o *common.Opts, idx int, cs c08case, st *stats) string {
 	tag := fmt.Sprintf("%s/%s@%d", cs.regime, cs.seam, cs.hit)
 	w := newWorkload(c)
 	w.pace = 3 * time.Millisecond
+	poll := 50 * time.Millisecond
+	if cs.seam == "snapFileSaved" {
+		// slow clients and a quick end, so that the others are only a few entries ahead when everything stops
+		w.pace = 40 * time.Millisecond
+		poll = 3 * time.Millisecond
+	}
 	w.noLists = cs.noLists
 	wg := w.run(2, o.Seed*31337+int64(idx))
 	// run until the failpoint fired (bounded) or, for the kill-all case, a random instant
@@ -951,7 +967,14 @@ func scenarioC08(o *common.Opts, idx int, cs c08case, st *stats) string {
 		if cs.victim > 0 && c.Nodes[cs.victim-1].Srv.Exited() {
 			break
 		}
-		time.Sleep(50 * time.Millisecond)
+		time.Sleep(poll)
+	}
+	if cs.seam == "snapFileSaved" && cs.victim > 0 && c.Nodes[cs.victim-1].Srv.Exited() {
+		for _, nd := range c.Nodes {
+			if nd.ID != cs.victim {
+				nd.Srv.Signal(syscall.SIGSTOP) // (killed below, with everything else)
+			}
+		}
 	}
 	if cs.victim > 0 && c.Nodes[cs.victim-1].Srv.Exited() {
 		st.crashPoints[cs.seam]++
@@ -1099,6 +1122,11 @@ func main() {
 		extra("storm", o.Pick(1, 3), func(idx int, local *stats) string { return scenarioStorm(o, idx, local, "c07") })
 		extra("deposed-tail", o.Pick(1, 4), func(idx int, local *stats) string { return scenarioDeposedTail(o, idx, local, "c07") })
 		extra("biglog", o.Pick(1, 2), func(idx int, local *stats) string { return scenarioBigLog(o, idx, local) })
+		// a member that comes back with a snapshot file its log does not vouch for: it must not start from that file
+		// and then re-apply what the file already contains
+		extra("snapfile", o.Pick(2, 6), func(idx int, local *stats) string {
+			return scenarioC08(o, 900+idx, c08case{regime: "snap", seam: "snapFileSaved", hit: 1 + idx%3, victim: 1 + idx%3, order: []int{1 + idx%3, 1 + (idx+1)%3, 1 + (idx+2)%3}, snapCnt: 20, noLists: false}, local)
+		})
 		extra("lossy-posts", o.Pick(1, 4), func(idx int, local *stats) string { return scenarioLossyPosts(o, idx, local) })
 		wg.Add(1)
 		go func() {
@@ -1149,6 +1177,11 @@ func main() {
 			add("nosnap", "kill-all", 0, 0, 0)
 			add("snap", "afterWalSave", 40, 1+r.Intn(3), 20)
 			add("snap", "snapAfterSave", 1, 1+r.Intn(3), 20)
+			// a snapshot file on the disk that the log does not vouch for yet: the first, and a later one with an
+			// older, vouched-for snapshot next to it
+			add("snap", "snapFileSaved", 1, 1+r.Intn(3), 20)
+			add("snap", "snapFileSaved", 3, 1+r.Intn(3), 20)
+			add("snap", "snapFileSaved", 2, 1+r.Intn(3), 20)
 			add("snap", "kill-all", 0, 0, 20)
 		}
 		var mu sync.Mutex
